@@ -101,6 +101,15 @@ func (m *incomingStreamsMap[T]) AcceptStream(ctx context.Context) (T, error) {
 		m.mutex.Lock()
 	}
 	m.nextStreamToAccept += 4
+	// If the next stream is already waiting, pass the wake-up on: newStreamChan holds a single token,
+	// which this call (or the drain at the top of another call) may have consumed on behalf of
+	// a second AcceptStream caller that is about to block.
+	if _, ok := m.streams[m.nextStreamToAccept]; ok {
+		select {
+		case m.newStreamChan <- struct{}{}:
+		default:
+		}
+	}
 	// If this stream was completed before being accepted, we can delete it now.
 	if entry.shouldDelete {
 		if err := m.deleteStream(id); err != nil {
